@@ -4,7 +4,11 @@ import WsProofs.Lemmas.TieHsLemmas
 /-! The machine translation of `HandshakeMachine::single_round`
 (`WsModel/Generated/HsGen.lean`) computes exactly what the hand-written model
 (`Hs.singleRound` in `WsModel/Handshake/Model.lean`) computes: same transport, same round result,
-for every parser, machine state and transport. -/
+for every parser, machine state and transport.  Likewise the translation of the loop of
+`MidHandshake::handshake` (`GenHs.handshakeLoop`, generic in the role's `stage_finished`),
+instantiated with the server's and the client's `stage_finished` as the hand model inlines them,
+computes what `Hs.serverLoop` / `Hs.clientLoop` compute: same transport, same outcome
+(`Tie_hs_serverLoop`, `Tie_hs_clientLoop`). -/
 namespace WsProofs.Tie
 open WsModel WsModel.Gen WsModel.Hs WsModel.GenHs
 
@@ -51,5 +55,134 @@ theorem Tie_hs_singleRound (parse : Bytes → HeadParse) (s : HState) (t : Trans
     cases ev with
     | ok => rfl
     | err k => cases k <;> rfl
+
+/-! ### the loop of `MidHandshake::handshake` -/
+
+/-- what the generated loop does after `stage_finished` returned -/
+def afterStage {ρ φ : Type} (parse : Bytes → HeadParse) (stage : ρ → GStage → ρ × HR (GProc φ))
+    (fuel : Nat) (t : Transport) : ρ × HR (GProc φ) → Transport × HR (GHs ρ φ)
+  | (role, .ok (.continue_ s)) => GenHs.handshakeLoop parse stage fuel role s t
+  | (_, .ok (.done r)) => (t, .ok (.done r))
+  | (_, .err e) => (t, .err e)
+  | (_, .panic p) => (t, .panic p)
+
+/-- one turn of the generated loop, on the hand model's round -/
+def genStep {ρ φ : Type} (parse : Bytes → HeadParse) (stage : ρ → GStage → ρ × HR (GProc φ))
+    (fuel : Nat) (role : ρ) : Transport × Round → Transport × HR (GHs ρ φ)
+  | (t, .wouldBlock s) => (t, .ok (.interrupted role s))
+  | (t, .incomplete s) => GenHs.handshakeLoop parse stage fuel role s t
+  | (t, .err e) => (t, .err e)
+  | (t, .panic) => (t, .panic .writingEmpty)
+  | (t, .doneReading _ h tail) => afterStage parse stage fuel t (stage role (.doneReading h tail))
+  | (t, .doneWriting) => afterStage parse stage fuel t (stage role .doneWriting)
+
+theorem handshakeLoop_zero {ρ φ : Type} (parse : Bytes → HeadParse)
+    (stage : ρ → GStage → ρ × HR (GProc φ)) (role : ρ) (s : HState) (t : Transport) :
+    GenHs.handshakeLoop parse stage 0 role s t = (t, .panic .fuel) := rfl
+
+theorem handshakeLoop_succ {ρ φ : Type} (parse : Bytes → HeadParse)
+    (stage : ρ → GStage → ρ × HR (GProc φ)) (fuel : Nat) (role : ρ) (s : HState) (t : Transport) :
+    GenHs.handshakeLoop parse stage (fuel + 1) role s t
+      = genStep parse stage fuel role (Hs.singleRound parse s t) := by
+  rw [GenHs.handshakeLoop.eq_2, hs_bind_apply, Tie_hs_singleRound]
+  rcases Hs.singleRound parse s t with ⟨t', r⟩
+  cases r with
+  | wouldBlock s' => rfl
+  | incomplete s' => simp only [ofRound, hthen_ok, hs_bind_apply, hs_pure_apply, genStep]
+  | err e => rfl
+  | panic => rfl
+  | doneReading n h tail =>
+    simp only [ofRound, hthen_ok, genStep]
+    rcases stage role (.doneReading h tail) with ⟨role', r'⟩
+    cases r' with
+    | ok g => cases g <;> simp only [hs_bind_apply, hs_liftRes_apply, hs_pure_apply, hthen_ok, afterStage]
+    | err e => rfl
+    | panic p => rfl
+  | doneWriting =>
+    simp only [ofRound, hthen_ok, genStep]
+    rcases stage role .doneWriting with ⟨role', r'⟩
+    cases r' with
+    | ok g => cases g <;> simp only [hs_bind_apply, hs_liftRes_apply, hs_pure_apply, hthen_ok, afterStage]
+    | err e => rfl
+    | panic p => rfl
+
+/-- `ServerHandshake::stage_finished` as the hand model has it inlined in `serverLoop` -/
+def serverStage (role : ServerRole) : GStage → ServerRole × HR (GProc Unit)
+  | .doneReading h tail =>
+    match serverAfterRead role h tail with
+    | .error e => (role, .err e)
+    | .ok (role', out) => (role', .ok (.continue_ (.writing out)))
+  | .doneWriting =>
+    match role.errorResponse with
+    | some (status, body) => (role, .err (.http status body))
+    | none => (role, .ok (.done ()))
+
+/-- `ClientHandshake::stage_finished` as the hand model has it inlined in `clientLoop` -/
+def clientStage (v : VerifyData) : GStage → VerifyData × HR (GProc Bytes)
+  | .doneWriting => (v, .ok (.continue_ (.reading [] {})))
+  | .doneReading h tail =>
+    match verifyResponse v h tail with
+    | .error e => (v, .err e)
+    | .ok () => (v, .ok (.done tail))
+
+/-- how the hand model's loop result reads in the generated code's vocabulary -/
+def OutcomeMatches {ρ φ : Type} (mk : ρ → HState → Prop) : Outcome φ → HR (GHs ρ φ) → Prop
+  | .done a, .ok (.done b) => a = b
+  | .interrupted, .ok (.interrupted role s) => mk role s
+  | .failed e, .err e' => e = e'
+  | .panic, .panic _ => True
+  | _, _ => False
+
+theorem Tie_hs_serverLoop (parse : Bytes → HeadParse) (fuel : Nat) (m : ServerMid) (t : Transport) :
+    (GenHs.handshake parse serverStage fuel m.role m.state t).1 = (serverLoop parse fuel m t).1 ∧
+    OutcomeMatches (fun role s => (serverLoop parse fuel m t).2.1 = { role := role, state := s })
+      (serverLoop parse fuel m t).2.2 (GenHs.handshake parse serverStage fuel m.role m.state t).2 := by
+  unfold GenHs.handshake
+  induction fuel generalizing m t with
+  | zero => exact ⟨rfl, trivial⟩
+  | succ fuel ih =>
+    rw [handshakeLoop_succ]
+    unfold serverLoop
+    rcases Hs.singleRound parse m.state t with ⟨t', r⟩
+    cases r with
+    | wouldBlock s => exact ⟨rfl, rfl⟩
+    | incomplete s => exact ih { m with state := s } t'
+    | err e => exact ⟨rfl, rfl⟩
+    | panic => exact ⟨rfl, trivial⟩
+    | doneReading n h tail =>
+      simp only [genStep, serverStage]
+      cases hr : serverAfterRead m.role h tail with
+      | error e => exact ⟨rfl, rfl⟩
+      | ok p =>
+        rcases p with ⟨role', out⟩
+        exact ih { role := role', state := .writing out } t'
+    | doneWriting =>
+      simp only [genStep, serverStage]
+      cases hr : m.role.errorResponse with
+      | none => exact ⟨rfl, rfl⟩
+      | some p => exact ⟨rfl, rfl⟩
+
+theorem Tie_hs_clientLoop (parse : Bytes → HeadParse) (fuel : Nat) (m : ClientMid) (t : Transport) :
+    (GenHs.handshake parse clientStage fuel m.verify m.state t).1 = (clientLoop parse fuel m t).1 ∧
+    OutcomeMatches (fun v s => (clientLoop parse fuel m t).2.1 = { verify := v, state := s })
+      (clientLoop parse fuel m t).2.2 (GenHs.handshake parse clientStage fuel m.verify m.state t).2 := by
+  unfold GenHs.handshake
+  induction fuel generalizing m t with
+  | zero => exact ⟨rfl, trivial⟩
+  | succ fuel ih =>
+    rw [handshakeLoop_succ]
+    unfold clientLoop
+    rcases Hs.singleRound parse m.state t with ⟨t', r⟩
+    cases r with
+    | wouldBlock s => exact ⟨rfl, rfl⟩
+    | incomplete s => exact ih { m with state := s } t'
+    | err e => exact ⟨rfl, rfl⟩
+    | panic => exact ⟨rfl, trivial⟩
+    | doneWriting => exact ih { m with state := .reading [] {} } t'
+    | doneReading n h tail =>
+      simp only [genStep, clientStage]
+      cases hr : verifyResponse m.verify h tail with
+      | error e => exact ⟨rfl, rfl⟩
+      | ok u => exact ⟨rfl, rfl⟩
 
 end WsProofs.Tie
